@@ -14,6 +14,7 @@ import (
 	"math"
 	"math/big"
 	"os"
+	"reflect"
 	"strconv"
 	"strings"
 	"unicode/utf8"
@@ -203,4 +204,18 @@ func vFloatCmpInt(f float64, n int) int {
 		return -1
 	}
 	return new(big.Float).SetFloat64(f).Cmp(new(big.Float).SetInt64(int64(n)))
+}
+
+// vSameJSON: natively both texts must be well-formed JSON that decode to the same document
+// (encoding/json is the arbiter); under the executor it is text equality, which is stricter --
+// a difference that is only textual shows up as a non-reproducing counterexample, never as a violation.
+func vSameJSON(a, b string) bool {
+	var x, y interface{}
+	if err := json.Unmarshal([]byte(a), &x); err != nil {
+		return false
+	}
+	if err := json.Unmarshal([]byte(b), &y); err != nil {
+		return false
+	}
+	return reflect.DeepEqual(x, y)
 }
